@@ -63,8 +63,9 @@ def hdrAfterDelete (h : Hdr) (ds : List RawDesc) : Hdr :=
   ds.foldl (fun h d => { h with dfree := h.dfree + 1,
                                 arch := if d.isPartitionOfType partPrimSys then archUnknown else h.arch }) h
 
-theorem deleteLoop_closed (sel : Sel) (hs : sel.noErr = true) (zero : Bool)
-    (ds done : List RawDesc) (h : Hdr) (calls : List IOCall) (selected : Bool) :
+theorem deleteLoop_closed (sel : Sel) (zero : Bool)
+    (ds done : List RawDesc) (h : Hdr) (calls : List IOCall) (selected : Bool)
+    (hs : sel.firstErr ph ds = none) :
     deleteLoop ph sel zero ds done h calls selected =
       .ok (calls ++ (ds.filter (hit ph sel)).flatMap (zeroCalls zero),
            hdrAfterDelete h (ds.filter (hit ph sel)),
@@ -73,37 +74,53 @@ theorem deleteLoop_closed (sel : Sel) (hs : sel.noErr = true) (zero : Bool)
   induction ds generalizing done h calls selected with
   | nil => simp [deleteLoop, hdrAfterDelete]
   | cons d ds ih =>
+    have hq := Sel.firstErr_none ph sel (d :: ds) hs d (by simp)
+    have hs' : sel.firstErr ph ds = none := by
+      simp only [Sel.firstErr, List.findSome?_cons] at hs ⊢
+      cases hu : d.used with
+      | false => simpa [hu] using hs
+      | true => simpa [hu, hq hu] using hs
     unfold deleteLoop
     cases hu : d.used with
-    | false => simp [hit, hu, ih]
+    | false => simp [hit, hu, ih _ _ _ _ hs']
     | true =>
-      simp only [Bool.not_true, Bool.false_eq_true, ↓reduceIte, Sel.eval_noErr ph sel d hs]
+      simp only [Bool.not_true, Bool.false_eq_true, ↓reduceIte, Sel.eval_quiet ph sel d (hq hu)]
       cases hh : sel.holds ph d with
-      | false => simp [hit, hu, hh, ih]
+      | false => simp [hit, hu, hh, ih _ _ _ _ hs']
       | true =>
-        simp only [ih, hit, hu, hh, Bool.and_self, List.filter_cons_of_pos, List.flatMap_cons,
+        simp only [ih _ _ _ _ hs', hit, hu, hh, Bool.and_self, List.filter_cons_of_pos, List.flatMap_cons,
           hdrAfterDelete, List.foldl_cons, List.map_cons, ↓reduceIte, List.any_cons, Bool.true_or,
           Bool.or_true, zeroCalls, List.append_assoc, List.singleton_append]
 
-theorem deleteLoop_err (sel : Sel) (e : Err) (hs : sel.errOf = some e) (zero : Bool)
-    (ds done : List RawDesc) (h : Hdr) (calls : List IOCall) (selected : Bool) :
-    deleteLoop ph sel zero ds done h calls selected =
-      if ds.any (·.used) then .error e else .ok (calls, h, done ++ ds, selected) := by
-  induction ds generalizing done with
-  | nil => simp [deleteLoop]
+/-- a selector that answers with an error on some in-use descriptor rejects the whole delete:
+    the first such error (in table order) is the result, whatever was selected before it -/
+theorem deleteLoop_err (sel : Sel) (e : Err) (zero : Bool)
+    (ds done : List RawDesc) (h : Hdr) (calls : List IOCall) (selected : Bool)
+    (hs : sel.firstErr ph ds = some e) :
+    deleteLoop ph sel zero ds done h calls selected = .error e := by
+  induction ds generalizing done h calls selected with
+  | nil => simp [Sel.firstErr] at hs
   | cons d ds ih =>
     unfold deleteLoop
+    simp only [Sel.firstErr, List.findSome?_cons] at hs
     cases hu : d.used with
-    | false => simp [hu, ih]
-    | true => simp [hu, Sel.eval_err ph sel d e hs]
-
-theorem Sel.noErr_or_errOf (sel : Sel) : sel.noErr = true ∨ ∃ e, sel.errOf = some e := by
-  cases sel with
-  | id i => cases i <;> simp [Sel.noErr, Sel.errOf]
-  | linkedID i => cases i <;> simp [Sel.noErr, Sel.errOf]
-  | groupID i => cases i <;> simp [Sel.noErr, Sel.errOf]
-  | linkedGroupID i => cases i <;> simp [Sel.noErr, Sel.errOf]
-  | _ => simp [Sel.noErr]
+    | false =>
+      simp only [hu, Bool.false_eq_true, ↓reduceIte] at hs
+      simpa [hu] using ih _ _ _ _ hs
+    | true =>
+      simp only [hu, ↓reduceIte] at hs
+      cases he : sel.errOn ph d with
+      | some e' =>
+        rw [he] at hs
+        simp only [Option.some.injEq] at hs
+        subst hs
+        simp [Sel.eval_loud ph sel d e' he]
+      | none =>
+        rw [he] at hs
+        simp only [Bool.not_true, Bool.false_eq_true, ↓reduceIte, Sel.eval_quiet ph sel d he]
+        cases hh : sel.holds ph d with
+        | false => exact ih _ _ _ _ hs
+        | true => exact ih _ _ _ _ hs
 
 @[simp] theorem hdrAfterDelete_doff (h : Hdr) (ds : List RawDesc) :
     (hdrAfterDelete h ds).doff = h.doff ∧ (hdrAfterDelete h ds).dsize = h.dsize ∧
@@ -141,22 +158,22 @@ def deletePre (s : Img) (sel : Sel) (zero compact : Bool) (t : Int) : List IOCal
 theorem deleteObjectsPlan_cases (s : Img) (sel : Sel) (zero compact : Bool) (topt : TOpt)
     (now : Int) :
     (∃ calls e, deleteObjectsPlan ph s sel zero compact topt now = (calls, s, .err e)) ∨
-    (sel.noErr = true ∧ s.rds.any (hit ph sel) = true ∧
+    (sel.firstErr ph s.rds = none ∧ s.rds.any (hit ph sel) = true ∧
       deleteObjectsPlan ph s sel zero compact topt now =
         (deletePre ph s sel zero compact (resolveTime s topt now) ++
            flushCalls (deleteResult ph s sel compact (resolveTime s topt now)),
          deleteResult ph s sel compact (resolveTime s topt now), .ok)) := by
   unfold deleteObjectsPlan
-  rcases Sel.noErr_or_errOf sel with hs | ⟨e, he⟩
-  · rw [deleteLoop_closed ph sel hs]
+  cases hfe : sel.firstErr ph s.rds with
+  | none =>
+    rw [deleteLoop_closed ph sel zero _ _ _ _ _ hfe]
     simp only [List.nil_append, Bool.false_or]
     cases hany : s.rds.any (hit ph sel) with
     | false => left; exact ⟨_, .objectNotFound, rfl⟩
-    | true => right; exact ⟨hs, rfl, rfl⟩
-  · rw [deleteLoop_err ph sel e he]
-    cases hany : s.rds.any (·.used) with
-    | true => left; exact ⟨[], e, by simp⟩
-    | false => left; exact ⟨[], .objectNotFound, by simp⟩
+    | true => right; exact ⟨trivial, rfl, rfl⟩
+  | some e =>
+    rw [deleteLoop_err ph sel e zero _ _ _ _ _ hfe]
+    left; exact ⟨[], e, rfl⟩
 
 /-- every accepted operation's plan is `pre ++ flushCalls s'` for its final state `s'`; a rejected
     operation returns the handle unchanged -/
